@@ -28,8 +28,8 @@ pub assume_specification<I: IntoIterator<Item = P>, P: AsRef<[u8]>>[ AhoCorasick
     ensures r is Ok && ac_of(&r->Ok_0, needle_texts::<I>(patterns), acb_ci(*b));
 
 // RegexSetBuilder, modelled call by call: `new(patterns)` records the pattern texts, `case_insensitive(yes)` the flag, and
-// `build()` is ASSUMED to succeed and to return a set whose member i accepts exactly what the regex built from pattern i
-// with that flag accepts (rs_of).  The regex LANGUAGE stays uninterpreted: regex_of(pattern, flag) is "the regex the
+// `build()` may fail (the set has its own size limit); when it succeeds the set is ASSUMED to be one whose member i accepts
+// exactly what the regex built from pattern i with that flag accepts (rs_of).  The regex LANGUAGE stays uninterpreted: regex_of(pattern, flag) is "the regex the
 // builder makes of that text", and a Regex remembers its text (regex_text).
 #[verifier::external_type_specification]
 #[verifier::external_body]
@@ -60,7 +60,7 @@ pub assume_specification<I: IntoIterator<Item = S>, S: AsRef<str>>[ RegexSetBuil
 pub assume_specification<'a>[ RegexSetBuilder::case_insensitive ](b: &'a mut RegexSetBuilder, yes: bool) -> (r: &'a mut RegexSetBuilder)
     ensures rsb_pats(*final(b)) == rsb_pats(*old(b)), rsb_ci(*final(b)) == yes, *r == *final(b);
 pub assume_specification[ RegexSetBuilder::build ](b: &RegexSetBuilder) -> (r: std::result::Result<RegexSet, regex::Error>)
-    ensures r is Ok && rs_of(&r->Ok_0, rsb_pats(*b), rsb_ci(*b));
+    ensures r is Ok ==> rs_of(&r->Ok_0, rsb_pats(*b), rsb_ci(*b));
 
 // `.into_iter().map(|r| r.as_str().to_string()).collect::<Vec<_>>()`: the pattern texts of the regexes, in order (expression hole)
 #[verifier::external_body]
